@@ -11,7 +11,7 @@ func init() { core.Register("C20", "model_checking", run) }
 
 func run(c *core.C) {
 	n := core.Pick(c, 6, 8)
-	d := core.Pick(c, 0, 1)
+	d := core.Pick(c, 0, 2)
 	adv := core.Pick(c, 3, 4)
 	or := tmworld.Oracles{C20: true}
 	mk := func(p tmworld.Params, adv, rec int) *tmworld.Scenario {
